@@ -224,13 +224,19 @@ func (q *Queue[T]) waitForNew(ctx context.Context) error {
 	q.mu.Lock()
 	defer q.mu.Unlock()
 
+	return q.unsafeWaitForNew(ctx, q.back)
+}
+
+// unsafeWaitForNew waits until an entry is linked after the cursor,
+// which is the case exactly when the queue holds an item that an
+// iterator at the cursor has not seen. The caller must hold the lock.
+func (q *Queue[T]) unsafeWaitForNew(ctx context.Context, cursor *entry[T]) error {
 	// when the function returns wake all other waiters.
 	ctx, cancel := context.WithCancel(ctx)
 	go func() { <-ctx.Done(); q.mu.Lock(); defer q.mu.Unlock(); q.nupdates.Broadcast() }()
 	defer cancel()
 
-	head := q.back
-	for head == q.back && q.back.link != q.front {
+	for cursor.link == nil {
 		if q.closed {
 			return ErrQueueClosed
 		}
@@ -264,11 +270,11 @@ func (q *Queue[T]) Close() error {
 //
 // Preconditions: The caller holds q.mu and q is not empty.
 func (q *Queue[T]) popFront() T {
+	// the removed entry becomes the new sentinel: it stays linked to
+	// everything added later, so that an iterator positioned on it
+	// (or on an entry removed earlier) does not lose its place.
 	e := q.front.link
-	q.front.link = e.link
-	if e == q.back {
-		q.back = q.front
-	}
+	q.front = e
 
 	q.tracker.remove()
 	q.nupdates.Broadcast()
@@ -358,40 +364,31 @@ func (q *Queue[T]) Distributor() Distributor[T] {
 func (q *Queue[T]) Producer() fun.Producer[T] {
 	var next *entry[T]
 	return func(ctx context.Context) (o T, _ error) {
+		// hold the lock for the whole step (waiting releases it), so
+		// that nothing can change between looking at the cursor and
+		// deciding to wait.
+		q.mu.Lock()
+		defer q.mu.Unlock()
+
 		if next == nil {
-			q.mu.Lock()
 			next = q.front
-			q.mu.Unlock()
 		}
 
-		q.mu.Lock()
-		if next.link == q.front {
-			q.mu.Unlock()
+		if next.link == next {
 			return o, io.EOF
 		}
 
-		if next.link != nil {
-			next = next.link
-			q.mu.Unlock()
-		} else if next.link == nil {
+		if next.link == nil {
 			if q.closed {
-				q.mu.Unlock()
 				return o, io.EOF
 			}
 
-			q.mu.Unlock()
-			verifhook.At("pubsub.Queue.Producer.unlocked")
-			if err := q.waitForNew(ctx); err != nil {
+			if err := q.unsafeWaitForNew(ctx, next); err != nil {
 				return o, err
 			}
-
-			q.mu.Lock()
-			if next.link != q.front {
-				next = next.link
-			}
-			q.mu.Unlock()
 		}
 
+		next = next.link
 		return next.item, nil
 	}
 }
